@@ -32,7 +32,7 @@ try:
         t0 = time.time()
         e = dict(env, VERIF_REPO=wt, VERIF_JOBS="6")
         r = subprocess.run(f"./check run {c} --tier {tier}", shell=True, cwd="/verif", capture_output=True, text=True, env=e)
-        lines = [l for l in r.stdout.splitlines() if l.startswith("VIOLATION") or l.startswith("  signature") or l.startswith("[")]
+        lines = [l for l in r.stdout.splitlines() if l.startswith("VIOLATION") or l.startswith("  signature") or l.startswith("  ORDER-DEPENDENT") or l.startswith("[")]
         out["checks"][c] = {"rc": r.returncode, "wall": round(time.time() - t0, 1), "lines": lines[:8], "stderr": r.stderr[-400:] if r.returncode == 2 else ""}
     if run_tests:
         t0 = time.time()
